@@ -81,6 +81,11 @@ def generate(rng, tier, shard, nshards):
             while region['cls'] != 'CompoundPixelRegion':
                 region = gen.compound_spec(rng, 2, leaf)
             lane = 'compound'
+        elif r < 0.17:
+            # a centre-defined shape 1e12..1e14 of its own sizes away from the origin: the offsets p - c are still exact
+            L = gen.logu(rng, 1e-3, 1e3)
+            region = gen.pixel_region_spec(rng, classes=gen.SIMPLE_PIX + gen.ANNULI_PIX, size=L, center=gen.center_xy(rng, L, 'ultrafar'))
+            lane = 'ultrafar'
         else:
             region = gen.pixel_region_spec(rng)
             lane = region['cls']
